@@ -4,7 +4,10 @@
 //! 255-octet name) and records of many types, on every compressor and
 //! target, and logs one event per public call with its arguments, result,
 //! length, counts and stream prefix; the final octets are logged in full.
-//! usage: record_builder <out.ndjson> <seed> <max-events> [small|large]
+//! "edge" runs open with answer() and one filler record that ends at an
+//! offset around 0x3FFF / 0x4000, then keep cutting back to and writing at
+//! these offsets (small push limits, rewinds, backward conversions).
+//! usage: record_builder <out.ndjson> <seed> <max-events> [small|large|edge]
 #[path = "../builder.rs"]
 mod builder;
 
@@ -193,28 +196,44 @@ fn main() {
     let max: u64 = args[3].parse().unwrap_or(1500);
     // "small": no filler records, messages stay far below 16384 octets;
     // "large": most runs carry filler records and cross 0x3FFF / approach 0xFFFF
-    let large = args.get(4).map(|s| s == "large").unwrap_or(false);
-    let comps = ["none", "static", "tree", "hash"];
-    let tgts = ["vec", "bytes", "array", "stream", "stream", "vec", "sarray"];
+    let edge = args.get(4).map(|s| s == "edge").unwrap_or(false);
+    let large = edge || args.get(4).map(|s| s == "large").unwrap_or(false);
+    let comps = if edge { ["tree", "static", "tree", "hash"] } else { ["none", "static", "tree", "hash"] };
+    let tgts: &[&str] = if edge {
+        &["vec", "bytes", "stream", "sbytes"]
+    } else {
+        &["vec", "bytes", "array", "stream", "stream", "vec", "sarray", "sbytes"]
+    };
     let mut run_no = 0u64;
     let mut panics = 0u64;
     while w.n < max {
         let comp = comps[(run_no % 4) as usize];
-        let tgt = *rng.pick(&tgts);
+        let tgt = *rng.pick(tgts);
         run_no += 1;
         let pool = name_pool(&mut rng);
         // some runs are meant to grow large
-        let grow = large && tgt != "array" && tgt != "sarray" && rng.chance(3, 4);
-        let spec_tgt = if tgt == "bytes" { "vec" } else { tgt };
+        let grow = !edge && large && tgt != "array" && tgt != "sarray" && rng.chance(3, 4);
+        let spec_tgt = match tgt {
+            "bytes" => "vec",
+            "sbytes" => "stream",
+            t => t,
+        };
+        let alt = rng.chance(1, 2);
         w.event(json!({"ev": "new", "comp": comp, "tgt": spec_tgt, "real_tgt": tgt,
                        "cap": cap_of(tgt)}));
         let outcome = catch_unwind(AssertUnwindSafe(|| {
             let mut events = vec![];
-            let mut d = make(comp, tgt);
+            let mut d = make(comp, tgt, alt);
+            let mut id_masked: Option<u16> = None;
+            // an edge run: answer(), one filler record that ends at `end`
+            let end = 16380 + rng.below(7) as usize;
+            let mut prelude = if edge { 2 } else { 0 };
             let mut acc: Vec<(u8, Item)> = vec![];
             let mut noop = true;
             let mut shim_ok = true;
-            let nops = if grow { 80 + rng.below(121) } else { 20 + rng.below(181) };
+            let nops = if edge { 10 + rng.below(40) } else if grow { 80 + rng.below(121) } else { 20 + rng.below(181) };
+            // how often sections change, are rewound, a limit is set / cleared
+            let (t_goto, t_rewind, t_limit, t_clear) = if edge { (10, 24, 38, 44) } else { (12, 17, 24, 28) };
             for _ in 0..nops {
                 // any public entry point for the call (see builder::Drive)
                 let route = rng.next() as u32;
@@ -223,7 +242,60 @@ fn main() {
                 // runs that are meant to grow rewind less often
                 let roll = if grow && rng.chance(2, 3) { 28 + rng.below(72) } else { rng.below(100) };
                 let mut ev;
-                if roll < 12 || sec == 0 {
+                if prelude == 2 {
+                    prelude = 1;
+                    d.goto(2);
+                    ev = json!({"ev": "goto", "s": 2});
+                } else if prelude == 1 {
+                    prelude = 0;
+                    let name = rng.pick(&pool).clone();
+                    let n = end - 12 - wire_len(&name) - 10;
+                    let it = Item { question: false, name, rtype: 65280, class: 1,
+                                    ttl: [0, 0, 14, 16], rd: vec![Part::F(n)] };
+                    let ok = d.push(&it, None);
+                    assert!(ok && d.len() == end, "filler record of an edge run");
+                    acc.push((2, it.clone()));
+                    ev = json!({"ev": "push", "item": item_to_json(&it), "res": "ok"});
+                } else if sec == 0 && rng.chance(1, 3) {
+                    // start_answer / start_error / request_axfr
+                    let kind = *rng.pick(&["answer", "answer", "error", "error", "axfr"]);
+                    let nq = if kind == "axfr" { 1 } else { rng.below(4) as usize };
+                    let qs: Vec<Item> = (0..nq)
+                        .map(|_| Item {
+                            question: true,
+                            name: rng.pick(&pool).clone(),
+                            rtype: if kind == "axfr" { 252 } else { *rng.pick(&[1u16, 28, 255]) },
+                            class: if kind == "axfr" { 1 } else { *rng.pick(&[1u16, 1, 3]) },
+                            ttl: [0; 4],
+                            rd: vec![],
+                        })
+                        .collect();
+                    let mut rq = [0u8; 4];
+                    if kind != "axfr" {
+                        rq.copy_from_slice(&rng.bytes(4));
+                    }
+                    let rc = rng.below(16) as u8;
+                    let res = d.start(kind, rq, rc, &qs);
+                    ev = json!({"ev": "start", "kind": kind, "rq": rq.to_vec(), "rc": rc,
+                                "qs": qs.iter().map(item_to_json).collect::<Vec<_>>(),
+                                "res": res});
+                    if res == "gone" {
+                        ev["route"] = json!(route % 1000);
+                        events.push(ev);
+                        return events;
+                    }
+                    let n = d.counts()[0] as usize;
+                    for q in qs.iter().take(n) {
+                        acc.push((1, q.clone()));
+                    }
+                    id_masked = if kind == "axfr" { Some(0) } else { None };
+                } else if rng.chance(1, 25) {
+                    let mut h = [0u8; 4];
+                    h.copy_from_slice(&rng.bytes(4));
+                    d.set_header(h);
+                    id_masked = None;
+                    ev = json!({"ev": "hdr", "h": h.to_vec()});
+                } else if roll < t_goto || sec == 0 {
                     // section change; mostly forward
                     let s = if sec < 4 && (sec == 0 || rng.chance(if grow { 19 } else { 7 }, if grow { 20 } else { 10 })) {
                         sec + 1 + rng.below((4 - sec) as u64) as u8
@@ -231,18 +303,21 @@ fn main() {
                         rng.below(5) as u8
                     };
                     let s = if sec == 0 && rng.chance(1, 2) { 1 } else { s };
+                    // an edge run stays behind its filler record
+                    let s = if edge { 2 + rng.below(3) as u8 } else { s };
                     if s < sec {
                         drop_above(&mut acc, s);
                     }
                     d.goto(s);
                     ev = json!({"ev": "goto", "s": s});
-                } else if roll < 17 {
+                } else if roll < t_rewind {
                     acc.retain(|(x, _)| *x != sec);
                     d.rewind();
                     ev = json!({"ev": "rewind"});
-                } else if roll < 24 {
+                } else if roll < t_limit {
                     let len = d.len();
                     let n = match rng.below(6) {
+                        _ if edge => len + 8 + rng.below(40) as usize,
                         _ if grow && rng.chance(3, 4) => len + 2000 + rng.below(40000) as usize,
                         0 => len.saturating_sub(rng.below(20) as usize),
                         1 => len + 300 + rng.below(3000) as usize,
@@ -250,7 +325,7 @@ fn main() {
                     };
                     d.set_limit(Some(n));
                     ev = json!({"ev": "limit", "n": n});
-                } else if roll < 28 {
+                } else if roll < t_clear {
                     d.set_limit(None);
                     ev = json!({"ev": "clear"});
                 } else {
@@ -276,15 +351,39 @@ fn main() {
                     if cap_of(tgt) > 65535 && d.len() + plain_item(&it).len() > 65535 {
                         continue;
                     }
+                    // an OPT push may set an extended RCODE
+                    let rc = if it.rtype == 41 && rng.chance(1, 2) {
+                        Some(*rng.pick(&[0u16, 0, 1, 5, 255]) * 16 + rng.below(16) as u16)
+                    } else {
+                        None
+                    };
+                    let mut it = it;
+                    if it.rtype == 41 {
+                        it.ttl[0] = rc.map(|r| (r >> 4) as u8).unwrap_or(0);
+                    }
                     let before = (d.octets(), d.stream());
-                    let ok = d.push(&it);
+                    let ok = d.push(&it, rc);
                     if ok {
                         acc.push((sec, it.clone()));
-                    } else if (d.octets(), d.stream()) != before {
-                        noop = false;
+                    } else {
+                        let mut after = (d.octets(), d.stream());
+                        // (what a failed OPT push does to the RCODE in the
+                        // header is decided by the specification)
+                        if rc.is_some() {
+                            after.0[3] = (after.0[3] & 0xf0) | (before.0[3] & 0x0f);
+                            if let (Some(a), Some(b)) = (after.1.as_mut(), before.1.as_ref()) {
+                                a[5] = (a[5] & 0xf0) | (b[5] & 0x0f);
+                            }
+                        }
+                        if after != before {
+                            noop = false;
+                        }
                     }
                     ev = json!({"ev": "push", "item": item_to_json(&it),
                                 "res": if ok { "ok" } else { "err" }});
+                    if let Some(rc) = rc {
+                        ev["rc"] = json!(rc);
+                    }
                 }
                 let len = d.len();
                 let shim = match d.stream() {
@@ -296,12 +395,15 @@ fn main() {
                     }
                     None => len,
                 };
+                let hd = d.header();
                 ev["route"] = json!(route % 1000);
+                ev["id"] = json!(id_masked.unwrap_or(u16::from_be_bytes([hd[0], hd[1]])));
+                ev["fl"] = json!(u16::from_be_bytes([hd[2], hd[3]]));
                 ev["len"] = json!(len);
                 ev["cnt"] = json!(d.counts());
                 ev["shim"] = json!(shim);
                 events.push(ev);
-                if !grow && rng.chance(1, 60) {
+                if !grow && prelude == 0 && rng.chance(1, 60) {
                     break;
                 }
             }
@@ -314,7 +416,8 @@ fn main() {
                     shim_ok = false;
                 }
             }
-            let lib = library_reparse(&octets, &acc);
+            let lib = library_reparse(&octets, &acc)
+                .and_then(|_| library_reparse2(&octets, &acc, run_no as u32));
             events.push(json!({"ev": "finish", "octets": octets, "lib": lib.is_ok(),
                                "libwhy": lib.err().unwrap_or_default(),
                                "noop": noop, "shim_ok": shim_ok}));
